@@ -92,3 +92,25 @@ report('F14', len(outs) > 1, f"{len(outs)} distinct seeded outputs over 30 rebui
 m7 = elfi.ElfiModel(); elfi.Prior('uniform', model=m7, name='p'); elfi.Constant(5, model=m7, name='c')
 try: m7.generate(2, ['p', 'c'], seed=1); report('F15', False)
 except Exception as e: report('F15', 'not in the' in str(e), f"{type(e).__name__}: {e}")
+
+# F8: RandMaxVar leaves the bounds when the prior's support is wider
+from elfi.methods.bo.acquisition import RandMaxVar
+rs = np.random.RandomState(0); m8 = elfi.ElfiModel(); elfi.Prior('norm', 0, 1, model=m8, name='a'); elfi.Prior('uniform', -2, 4, model=m8, name='b')
+gp8 = GPyRegression(['a', 'b'], bounds={'a': (-1, 1), 'b': (-1.5, 1.5)}); X8 = rs.rand(12, 2) * 2 - 1; gp8.update(X8, (X8 ** 2).sum(1, keepdims=True) + .1 * rs.randn(12, 1), optimize=True)
+acq = RandMaxVar(gp8, prior=ModelPrior(m8), seed=1, sampler='metropolis', n_samples=60, sigma_proposals={'a': .8, 'b': .8})
+pts = np.vstack([acq.acquire(5, t=t) for t in range(3)]); out = pts[(np.abs(pts[:, 0]) > 1) | (np.abs(pts[:, 1]) > 1.5)]
+report('F8', len(out) > 0, f"{len(out)} of {len(pts)} acquired points outside the bounds, e.g. {out[:1]}")
+
+# F16: BSL likelihoods with a single summary statistic
+from elfi.methods.bsl.pdf_methods import gaussian_syn_likelihood, syn_likelihood_misspec, gaussian_syn_likelihood_ghurye_olkin
+X1 = rs.randn(20, 1); y1 = np.array([0.1]); msgs = []
+for nm, f in [('whitening', lambda: gaussian_syn_likelihood(X1, y1, whitening=np.array([[2.0]]))), ('misspec', lambda: syn_likelihood_misspec(X1, y1, np.array([.1]), 'mean'))]:
+    try: f()
+    except ValueError as e: msgs.append(nm + ': ' + str(e)[:40])
+report('F16', len(msgs) == 2, '; '.join(msgs))
+
+# F17: Ghurye-Olkin estimator off by (d-1)(n-d-2)/2*log(n-1)
+import math
+n17, d17 = 20, 3; X17 = rs.randn(n17, d17); y17 = X17.mean(0) + .2
+code = float(gaussian_syn_likelihood_ghurye_olkin(X17, y17)[0]); plug = float(ss.multivariate_normal.logpdf(y17, X17.mean(0), np.cov(X17, rowvar=False)))
+report('F17', abs((code - plug) - (d17 - 1) * (n17 - d17 - 2) / 2 * math.log(n17 - 1)) < 1.0, f"code {code:.2f} vs plug-in MVN {plug:.2f}; predicted offset {(d17-1)*(n17-d17-2)/2*math.log(n17-1):.2f}")
